@@ -196,6 +196,9 @@ def work(shard, res, tier, seed):
             for side in rx.split(">>"):
                 check_decompose(side, res, dec, "dot_ring_closure")
             res.count("dot_ring_closure_inputs")
+        for n in (999, 1000, 1001, 1300):  # very large molecules
+            carbon_one("C" * n + "O>>" + "C" * n + "OCO", res, CheckCarbonBalance, is_carbon_balanced)
+            carbon_one("C" * n + "O.C=O>>" + "C" * n + "OCO", res, CheckCarbonBalance, is_carbon_balanced)
         for k in range(0, min(len(pick), 200), 20):
             atom_balance_sequence([r["reaction"] for r in pick[k:k + 20]], res, CheckCarbonBalance)
     if "data_decomposer" in shard:
